@@ -57,6 +57,7 @@ type gen struct {
 	entropy int64
 	accepted [][2]int // (block, tx) of transactions the model accepted (candidates for replay)
 	prop     string   // the property the run is generated for
+	rawDelivered [][2]int // (block, tx) of byte-level variants of accepted transactions that were delivered
 	pastQueries []ReadOnly // store queries with an explicit height issued so far (asked again later)
 	aclTaker int      // while a gov/acl value is being built: the account it should name as the list's owner (-1: none)
 	refused  [][2]int // ... and of those it saw refused, before or after the ante handler passed (replayed too)
@@ -1128,7 +1129,10 @@ func (g *gen) genTx(bi int) {
 			s = g.tr.Blocks[ref[0]].Txs[ref[1]]
 			g.entropy++
 			s.Entropy = g.entropy
-			s.RawMut = fmt.Sprintf("%s:%d", []string{"trunc", "flip", "append"}[r.Intn(3)], r.Intn(4096))
+			s.RawMut = fmt.Sprintf("%s:%d", []string{"trunc", "flip", "append", "unkfield", "unkfield"}[r.Intn(5)], r.Intn(4096))
+			g.addTx(bi, s)
+			g.rawDelivered = append(g.rawDelivered, [2]int{bi, len(g.tr.Blocks[bi].Txs) - 1})
+			return
 		} else {
 			n := r.Range(0, 80)
 			raw := make([]byte, n)
@@ -1144,7 +1148,10 @@ func (g *gen) genTx(bi int) {
 			return
 		}
 		ref := g.accepted[r.Intn(len(g.accepted))]
-		if len(g.refused) > 0 && r.Chance(0.3) {
+		if len(g.rawDelivered) > 0 && r.Chance(0.15) {
+			// the very bytes of an earlier byte-level variant of a transaction (which the decoder may have tolerated)
+			ref = g.rawDelivered[r.Intn(len(g.rawDelivered))]
+		} else if len(g.refused) > 0 && r.Chance(0.3) {
 			// the bytes of a transaction that was in a block but refused (by the ante handler or by the message handler)
 			ref = g.refused[r.Intn(len(g.refused))]
 		}
